@@ -1,6 +1,7 @@
 package props
 
 import (
+	"sort"
 	"fmt"
 	"strings"
 
@@ -242,7 +243,7 @@ func mutants(s string) []string {
 func C16(e *core.Env) {
 	res := e.Res
 	res.Rule = "a history of 150 000 (quick) / 1 500 000 (thorough) further parses of one long sentence and one ill-formed string in the same process (same answer every time); strings = sentences of the path grammar with <= N leaves (N=3 quick, 5 thorough) over ex.a/ex.b/ex.c^/@type in canonical layout, " +
-		"in random whitespace/redundant-parenthesis layouts, and every single-character edit (delete/replace/insert over the 20-character path alphabet) of a sample of them; " +
+		"in random whitespace/redundant-parenthesis layouts, and every single-character edit (delete/replace/insert over the 20-character path alphabet) of a sample of them; 7 non-paths and one path written at each of 11 places of a profile where a path stands (top level, if / then / else, not, and / or operand, nested, atLeast, the argument of lessThanProperty, else + not): refused (accepted) by CompileProfile everywhere; 12 characters foreign to the grammar (U+FFFD, other non-ASCII, invalid UTF-8, NUL, BOM) placed where the parser stops after a complete path, inside parentheses and in front, alone and followed by more text; " +
 		"non-trivial = distinct string on which model or implementation accepts, or a mutant of an accepted sentence that must be rejected"
 	anchored, _ := e.Facts["peg_anchored"].(bool)
 	leaves := []PExp{Pr("ex.a", false), Pr("ex.b", false), Pr("ex.c", true), Pr("@type", false)}
@@ -360,6 +361,73 @@ func C16(e *core.Env) {
 		strings.Repeat("(", 60) + "ex.a" + strings.Repeat(")", 60), strings.Repeat("(", 60) + "ex.a" + strings.Repeat(")", 59)} {
 		try(s, "corner", nil)
 	}
+	// every place of a profile where a path is written: a string that is not a path is refused wherever it stands
+	{
+		pc := func(path string, ind string) string { return ind + "propertyConstraints:\n" + ind + "  " + yamlQuote(path) + ":\n" + ind + "    minCount: 1\n" }
+		okc := func(ind string) string { return pc("ex.ok", ind) }
+		positions := map[string]func(string) string{
+			"top":      func(x string) string { return pc(x, "    ") },
+			"if":       func(x string) string { return "    if:\n" + pc(x, "      ") + "    then:\n" + okc("      ") },
+			"then":     func(x string) string { return "    if:\n" + okc("      ") + "    then:\n" + pc(x, "      ") },
+			"else":     func(x string) string { return "    if:\n" + okc("      ") + "    then:\n" + okc("      ") + "    else:\n" + pc(x, "      ") },
+			"not":      func(x string) string { return "    not:\n" + pc(x, "      ") },
+			"and-2nd":  func(x string) string { return "    and:\n      -\n" + okc("        ") + "      -\n" + pc(x, "        ") },
+			"or-1st":   func(x string) string { return "    or:\n      -\n" + pc(x, "        ") + "      -\n" + okc("        ") },
+			"nested":   func(x string) string { return "    propertyConstraints:\n      ex.kid:\n        nested:\n" + pc(x, "          ") },
+			"atLeast":  func(x string) string { return "    propertyConstraints:\n      ex.kid:\n        atLeast:\n          count: 1\n          validation:\n" + pc(x, "            ") },
+			"lessThan": func(x string) string { return "    propertyConstraints:\n      ex.ok:\n        lessThanProperty: " + yamlQuote(x) + "\n" },
+			"else-not": func(x string) string { return "    if:\n" + okc("      ") + "    then:\n" + okc("      ") + "    else:\n      not:\n" + pc(x, "        ") },
+		}
+		pnames := []string{}
+		for n := range positions {
+			pnames = append(pnames, n)
+		}
+		sort.Strings(pnames)
+		for _, x := range []string{"ex.a / / ex.b", "( ex.a | ex.b", "ex.a ) junk", "ex.a |", "ex.a,", "ex.a ^^", "ex.a\ufffd/ ex.b", "ex.a / ex.b"} {
+			ans, err := e.Driver.Eval(sx.L(sx.A("c16"), sx.A("parse"), sx.B(anchored), sx.S(x)))
+			if err != nil {
+				continue
+			}
+			verdict := ans.List[1].List[0].Atom
+			for _, pn := range pnames {
+				prof := "profile: p\nprefixes:\n  ex: http://example.org/ns#\nviolation:\n  - v\nvalidations:\n  v:\n    targetClass: ex.T\n    message: m\n" + positions[pn](x)
+				oc := compileOutcome(prof)
+				res.Case("position|"+pn+"|"+x, verdict == "reject")
+				res.Count("position-compile:" + oc)
+				if oc == "panic" || (verdict == "reject" && oc == "ok") || (verdict == "accept" && oc != "ok") {
+					res.Violate("impl-violates-property", fmt.Sprintf("CompileProfile %s for a profile with %q written as a path under `%s`, which the grammar %ss", oc, x, pn, verdict),
+						map[string]any{"input": x, "position": pn, "profile": prof, "compile_outcome": oc, "spec_anchored": ans.List[1].String()})
+				}
+			}
+		}
+	}
+	// characters outside the grammar's alphabet placed exactly where the parser stops after a complete path (and inside one):
+	// the replacement character U+FFFD (what decoders use for "no rune here"), other non-ASCII letters, invalid UTF-8 bytes,
+	// NUL, the byte order mark - alone and followed by more text
+	foreign := []string{"\ufffd", "\xef\xbf\xbd\xef\xbf\xbd", "é", "\xff", "\xc0\x80", "\x00", "\ufeff", "\u2028", "\U0010ffff", "\xed\xa0\x80", "\xf4\x90\x80\x80", "\xef\xbf"}
+	tails := []string{"", " junk", "/ ex.b", ") junk (", " / ", " | ex.b"}
+	nf := 0
+	for i, p := range sentences {
+		if i >= e.Pick(60, 400) {
+			break
+		}
+		base := p.Render(canon, none)
+		for _, c := range foreign {
+			for ti, tail := range tails {
+				if e.Quick() && (i+ti)%3 != 0 && i > 6 {
+					continue
+				}
+				try(base+c+tail, "foreign-character", nil)
+				try(base+" "+c+tail, "foreign-character", nil)
+				nf += 2
+			}
+			try(c+base, "foreign-character", nil)
+			try("("+base+c+")", "foreign-character", nil)
+			try("( "+base+" )"+c+") junk (", "foreign-character", nil)
+			nf += 3
+		}
+	}
+	res.Distribution["foreign_character_strings"] = nf
 	// histories: what ParsePath answers for a string does not depend on how many strings the process parsed before
 	// (a long-lived embedder parses the paths of every profile again and again)
 	{
